@@ -499,7 +499,7 @@ COMMON_HEADERS = ['Range', 'If-Match', 'If-None-Match', 'If-Modified-Since', 'If
 
 TARGETS = ['plain', 'args', 'static', 'file', 'sess', 'fsess', 'cache', 'basic', 'digest', 'json', 'upload', 'form', 'neg',
            'etag', 'decode', 'proxy', 'autovary', 'referer', 'dir', 'rest', 'index', 'missing', 'redir', 'echo', 'tsx',
-           'stream', 'combo', 'vhost', 'psub', 'szip']
+           'stream', 'combo', 'vhost', 'psub', 'szip', 'limit', 'lcache']
 # relevant elements per target: (header names always worth sending there)
 RELEVANT = {
     'static': ['Range', 'If-Range', 'If-Modified-Since', 'If-Unmodified-Since', 'If-None-Match', 'If-Match',
@@ -519,6 +519,7 @@ RELEVANT = {
               'X-Ignore'],
     'vhost': ['Host', 'X-Forwarded-Host', 'Host'], 'psub': ['X-Forwarded-Host', 'X-Forwarded-Proto', 'X-Forwarded-For', 'Host'],
     'szip': ['Range', 'If-Range', 'If-Modified-Since', 'If-None-Match', 'Accept-Encoding', 'Accept-Charset'],
+    'limit': [], 'lcache': ['Cache-Control', 'If-Modified-Since', 'If-None-Match', 'If-Unmodified-Since', 'If-Match', 'Range'],
 }
 PATHS = {
     'plain': ['/plain', '/plain/x/y', '/plain/'], 'args': ['/args', '/args/1', '/args/1/2', '/args/1/2/3'],
@@ -532,7 +533,8 @@ PATHS = {
     'dir': ['/dir', '/dir/', '/sub', '/sub/', '/sub/index'], 'rest': ['/rest', '/rest/', '/rest/x'],
     'index': ['/', '', '//', '/index', '/index/'],
     'redir': ['/redir', '/redir/x'], 'echo': ['/echo', '/echo/x'], 'tsx': ['/tsx', '/tsx/', '/tsx/x/', '/tsx/x/y//'],
-    'stream': ['/stream'], 'combo': ['/combo', '/combo/x'], 'vhost': ['/vhost', '/vhost/', '/vhost/x'],
+    'limit': ['/limit'], 'lcache': ['/lcache', '/lcache/a'],
+    'stream': ['/stream'], 'combo': ['/combo', '/combo/x', '/combo'], 'vhost': ['/vhost', '/vhost/', '/vhost/x'],
     'psub': ['/psub', '/psub/', '/osub'],
     'szip': ['/szip/hello.txt', '/szip/', '/szip', '/szip/index.html', '/szip/missing'],
     'missing': ['/nope', '/\xe9', '/a%00b', '/plain.txt', '/favicon.ico', '/robots.txt', '/_private', '/index/x/y',
@@ -547,7 +549,7 @@ def gen_case(rng, target=None, digest_ctx=None):
     """One request case for `target` (mostly valid, with a malformed stream)."""
     target = target or pick(rng, TARGETS)
     path = pick(rng, PATHS[target])
-    bodyful = target in ('json', 'upload', 'form', 'decode') or (target in ('plain', 'rest', 'args', 'basic', 'digest',
+    bodyful = target in ('json', 'upload', 'form', 'decode', 'limit') or (target in ('plain', 'rest', 'args', 'basic', 'digest',
                                                                             'cache', 'sess', 'redir', 'echo', 'combo')
                                                                and rng.random() < 0.35)
     if bodyful:
@@ -555,6 +557,8 @@ def gen_case(rng, target=None, digest_ctx=None):
     else:
         method = pick(rng, METHODS)
     qs = sanitize(mutated(rng, gen_qs(rng), 0.35)) if rng.random() < 0.6 else ''
+    if rng.random() < 0.25 and target not in ('index', 'missing'):
+        path = '/d' + path          # the same resource with every tool's debug switch on
     headers = []
     proto = pick(rng, ['HTTP/1.1'] * 3 + ['HTTP/1.0'] * 2)
     if rng.random() < 0.93:
@@ -885,7 +889,8 @@ def session_cases(rng):
         for t in SID_TEMPLATES:
             for proto in PROTOS:
                 method = pick(rng, ['GET', 'GET', 'HEAD', 'POST', 'DELETE'])
-                c = _base('sess2', method, path, proto, [['Cookie', t]])
+                c = _base('sess2', method, path, proto, [['Cookie', t]],
+                          qs='regen=1' if (path == '/combo' and rng.random() < 0.4) else '')
                 c['pre'] = [_get(path, proto=pick(rng, PROTOS))]
                 if rng.random() < 0.3:      # a second visit with the genuine id before the malformed one
                     c['pre'].append(_get(path, headers=[['Cookie', 'session_id={{sid}}']]))
@@ -917,7 +922,7 @@ COND_TEMPLATES['If-Range'] = COND_TEMPLATES['If-Modified-Since'][:8] + COND_TEMP
 def conditional_cases(rng):
     out = []
     for path, target in (('/etag', 'etag'), ('/file', 'file'), ('/static/hello.txt', 'static'), ('/combo', 'combo'),
-                         ('/cache/c', 'cache')):
+                         ('/cache/c', 'cache'), ('/lcache', 'lcache')):
         for name, ts in COND_TEMPLATES.items():
             for t in ts:
                 method = pick(rng, ['GET', 'GET', 'HEAD', 'POST', 'PUT', 'DELETE'])
@@ -929,6 +934,8 @@ def conditional_cases(rng):
                     hs.append([other, pick(rng, COND_TEMPLATES[other])])
                 c = _base('cond2', method, path, pick(rng, PROTOS), hs)
                 c['pre'] = [_get(path)]
+                if 'cache' in path:
+                    c['pre'].append(_get(path))       # the second visit is served from the cache
                 out.append(c)
         for name in COND_TEMPLATES:
             for w in (WIDE[0], WIDE[8], WIDE[10]):
@@ -1095,4 +1102,44 @@ def encword_cases(rng):
                     if path.startswith('/cache'):
                         c['pre'] = [_get(path)]
                     out.append(c)
+    return out
+
+
+def debug_twins(rng, cases, p=0.3):
+    """Send a share of the cases to the /d twin of the resource (every tool with debug on)."""
+    for c in cases:
+        if c['path'].startswith('/') and not c['path'].startswith('/d/') and len(c['path']) > 1 and rng.random() < p:
+            c['path'] = '/d' + c['path']
+            for st in c.get('pre') or []:
+                st['path'] = '/d' + st['path']
+            c['target'] = c['target'] + ':debug' if ':' not in c['target'] else c['target']
+    return cases
+
+
+# ---- dispatch: fixed-signature handlers x path atoms x query / body parameter sets ---------------------------
+def dispatch_cases(rng, n=400):
+    out = []
+    handlers = ['/args', '/noargs', '/kwonly', '/obj', '/rest', '/json', '/stream', '/sub', '/sub/index']
+    keysets = [[], ['a'], ['a', 'b'], ['a', 'a'], ['zz'], ['a', 'zz'], ['b'], ['k'], ['a', 'k', 'k'], ['a', 'b', 'k', 'zz'],
+               ['a[]'], ['self'], ['\xc3\xa9'], ['']]
+    for _ in range(n):
+        h = pick(rng, handlers)
+        path = h + ''.join('/' + pick(rng, ['1', 'x', '', '%20', 'a=b']) for _i in range(rng.choice([0, 0, 1, 1, 2, 3])))
+        qs = '&'.join('%s=%d' % (k, i) for i, k in enumerate(pick(rng, keysets)))
+        method = pick(rng, ['GET', 'GET', 'HEAD', 'POST', 'POST', 'PUT', 'DELETE'])
+        body = ''
+        hs = []
+        if method in ('POST', 'PUT'):
+            kind = rng.random()
+            keys = pick(rng, keysets)
+            if kind < 0.6:
+                body = '&'.join('%s=%d' % (k, i) for i, k in enumerate(keys))
+            elif kind < 0.85:
+                hs.append(['Content-Type', 'multipart/form-data; boundary=B'])
+                body = ''.join('--B\r\nContent-Disposition: form-data; name="%s"%s\r\n\r\nv\r\n'
+                               % (k, pick(rng, ['', '', '; filename="f.txt"'])) for k in keys) + '--B--\r\n'
+            else:
+                hs.append(['Content-Type', 'application/json'])
+                body = '{"a": 1}'
+        out.append(_base('dispatch', method, path, pick(rng, PROTOS), hs, qs=qs, body=body))
     return out
